@@ -1,6 +1,7 @@
 package props
 
 import (
+	"fmt"
 	"math/big"
 	"time"
 
@@ -92,6 +93,20 @@ func runMoney(w *mc.Worker, id string) {
 	stage("pow2-w1", "source+destination trees of joint weight <= 1; balances and amounts in {0,1,2^63-1,2^63,2^64-1,2^64,2^64+1,2^65}", 1, 1, 1, pow2Dom(), pow2Dom())
 	runVarSeqSpace(w, "vars-L2", 1, 2, func(c *seqCase, vars map[string]string, bal env.Bal) {
 		judgeSeqCase(w, c, vars, bal, owns, nontriv, id == "C02")
+	})
+	el := 2
+	if w.Tier == "thorough" {
+		el = 3
+	}
+	runEdgeSeqSpace(w, fmt.Sprintf("edge-L%d", el), 1, el, func(c *seqCase, bal env.Bal) {
+		judgeSeqCase(w, c, nil, bal, owns, nontriv, id == "C02")
+	})
+	peers := []string{"x", "a"}
+	if id == "C02" {
+		peers = []string{"x", "a", "", keptMarker, "no good", "\x00absent"}
+	}
+	runOriginSeqSpace(w, "origin-L2", 1, 2, peers, func(c *seqCase, oc *originCase) {
+		judgeSeqCaseX(w, c, nil, oc, owns, nontriv, id == "C02", env.Exact)
 	})
 	if w.Tier == "quick" {
 		stage("send-w2", "source+destination trees of joint weight <= 2, depth <= 1; balances {0,1,3,-2}^2; amounts {0,1,2,4,7}", 2, 1, 1, balQ, amtQ)
